@@ -332,6 +332,7 @@ const SITE_NOTES: &[&str] = &[
     "not driven as fee sites: ibc_denom_fair_burn has no caller in contracts/ or packages/ (direct calls only); sg721-updatable UpdateTokenMetadata is nonpayable in this tree (no fee is charged, so there is nothing to dispose of); no call site passes a developer to fair_burn / checked_fair_burn (always None), the open-edition minters are the only ones that pass one to distribute_mint_fees",
     "prior balance of the calling contract: every site shape is also run at one representative fee with the contract already holding 1 / fee-1 / fee / 10*fee of the fee denom and 1 / 10*fee of the other denom (bank send to its address, for instantiate sites to the address the contract will get) and, for the factories and the shuffle, coins left behind by an earlier accepted over-payment; payments fee-1 / fee / fee+1 / none / wrong denom / two coins; an accepted call must leave the contract's own balance in every denom at least where it was (key contract-balance-used)",
     "open-edition developer: dev_fee_address is a mandatory String of the factory parameters (it cannot be absent; the empty string is the only way to name nobody) that neither instantiate nor sudo UpdateParams validates; the three open-edition minters are run in every mint mode with it set at instantiate and by sudo to a valid account, the creator (= seller), the payment address, and to the upper-case / mixed-case spelling, a 2-character string, the empty string, strings with an inner / trailing space and a 120-character string; the monitor reads the ledger: an accepted mint with a fee pays the configured developer ceil(F/2) (key developer), a rejected one moves nothing; the model takes the chain's own addr_validate answer about the string as an oracle input",
+    "governance after creation: base-minter mint, shuffle (7 minters) and every minter's public / whitelist / airdrop mint are also run after a sudo UpdateParams on the factory between the creation of the minter and the probed call: min_mint_price lowered to a fifth and raised threefold under an existing minter (which keeps its stored price), and mint_fee_bps / airdrop price and bps / shuffle fee created higher or lower and then set to the values of the case (the contract reads them at call time); exact payment and payment-1; with the exact payment nothing of it may stay in the contract (key fee-stranded) and the parts must sum to the fee charged (key conservation)",
     "the decoded MsgFundFairburnPool sender is read from the stargate keeper: an accepted message was signed by the emitting contract (the keeper refuses anything else), a refused one names the sender in the refusal",
 ];
 
